@@ -5,8 +5,15 @@
 (*                                                                         *)
 (* One behaviour drives ONE object, chosen by cfg.kind ("cond" | "event"). *)
 (* One action = one public call (or one clock advance, or one cancel of a  *)
-(* pending wait future) followed by running the event loop to quiescence   *)
-(* at the current instant.  Waiter ids are the serial numbers of the wait  *)
+(* pending wait future).  The model is sequential: whether the event loop  *)
+(* runs between two calls is not part of a behaviour, so every placement   *)
+(* of loop iterations between the calls of a behaviour must produce the    *)
+(* same observations (the S2C replay runs each behaviour settled after     *)
+(* every call, with all calls of a stretch inside ONE loop iteration, and  *)
+(* with the calls that follow an Advance performed in the very iteration   *)
+(* in which the timers fire, or one / two iterations later).  Only a wait  *)
+(* with timeout 0 needs the loop to run before the next call (it expires   *)
+(* "immediately").  Waiter ids are the serial numbers of the wait          *)
 (* calls, so arrival order = id order.  Time is relative: rem[w] is the    *)
 (* time left before waiter w's deadline (NoDl = no deadline).              *)
 (*                                                                         *)
